@@ -114,6 +114,12 @@ def run(ctx):
             r.finish(cur, PEER[cls] + G.Base.scalarmult(7 % q or 1).to_bytes())
             r.serialize(cur)
             traces.append(r.json())
+    # random calls on a session and all of its revived copies (see fuzz.lineage_trace)
+    import fuzz
+    for ps, g, cnt in [("Pi11", "i11", 400 if thorough else 60), ("Ped37", "ed37", 200 if thorough else 30),
+                       ("PEd25519", "Ed25519", 30 if thorough else 6), ("P1024", "I1024", 20 if thorough else 3)]:
+        for k in range(cnt):
+            traces.append(fuzz.lineage_trace(ctx.rng, uni, mp, ps, g, "ABS"[k % 3], "lineage/%s/%d" % (g, k)))
     # volume: very long password and identities (state blobs of more than a megabyte), persisted and revived twice
     for ps, g, cls, npw, nid in ([("Pi11", "i11", "A", 700000, 1000), ("PEd25519", "Ed25519", "S", 1000, 600000)] +
                                  ([("P1024", "I1024", "B", 300000, 300000)] if thorough else [])):
